@@ -69,11 +69,7 @@ def apply(src_dir, rel, line, col, old, new):
 
 def suite_survives(scratch):
     env = dict(os.environ, PYTHONPATH=os.path.join(scratch, 'src'))
-    p = subprocess.run([sys.executable, '-m', 'pytest', '-q', '-p', 'no:cacheprovider', '-n', '8', '-x', '--co', '-q', 'test'], cwd='/repo', env=env,
-                       capture_output=True, text=True)
-    if p.returncode not in (0,):
-        return False, 'collection failed'
-    p = subprocess.run([sys.executable, '-m', 'pytest', '-q', '-p', 'no:cacheprovider', '-n', '8', 'test'], cwd='/repo', env=env,
+    p = subprocess.run([sys.executable, '-m', 'pytest', '-q', '-p', 'no:cacheprovider', '-n', '6', 'test'], cwd='/repo', env=env,
                        capture_output=True, text=True)
     failed = sorted(l for l in p.stdout.splitlines() if l.startswith('FAILED'))
     digest = hashlib.md5(('\n'.join(failed) + '\n').encode()).hexdigest()[:8]
@@ -93,7 +89,14 @@ def gen(n, seed):
     rnd.shuffle(allc)
     survivors = []
     tried = 0
+    part = os.path.join(OUT, 'mutants_%d.json' % seed)
+    done = set()
+    if os.path.exists(part):
+        prev = json.load(open(part))
+        survivors, tried, done = prev['survivors'], prev['tried'], set(tuple(x) for x in prev['done'])
     for rel, line, col, old, new in allc:
+        if (rel, line, col, new) in done:
+            continue
         if len(survivors) >= n or tried >= n * 6:
             break
         text = open(os.path.join('/repo', rel)).read().split('\n')[line - 1]
@@ -113,7 +116,8 @@ def gen(n, seed):
         print('%-24s %4d:%-3d %-6s -> %-7s %s   | %s' % (rel, line, col, old, new or "''", 'SURVIVES' if surv else 'killed by suite', text.strip()[:90]), flush=True)
         if surv:
             survivors.append({'file': rel, 'line': line, 'col': col, 'old': old, 'new': new, 'text': text.strip()})
-    json.dump({'seed': seed, 'tried': tried, 'survivors': survivors}, open(os.path.join(OUT, 'mutants.json'), 'w'), indent=1)
+        done.add((rel, line, col, new))
+        json.dump({'seed': seed, 'tried': tried, 'survivors': survivors, 'done': sorted(done)}, open(part, 'w'))
     print('%d mutants tried, %d survive the suite' % (tried, len(survivors)))
 
 
@@ -175,7 +179,16 @@ def one(srcdir):
 
 
 def run():
-    muts = json.load(open(os.path.join(OUT, 'mutants.json')))['survivors']
+    muts, seen_keys, tried = [], set(), 0
+    for f in sorted(glob.glob(os.path.join(OUT, 'mutants_*.json'))):
+        d = json.load(open(f))
+        tried += d['tried']
+        for m in d['survivors']:
+            k = (m['file'], m['line'], m['col'], m['new'])
+            if k not in seen_keys:
+                seen_keys.add(k)
+                muts.append(m)
+    print('%d suite-surviving mutants out of %d tried' % (len(muts), tried))
     results = []
     for k, m in enumerate(muts):
         scratch = '/dev/shm/mut_run_%d' % os.getpid()
